@@ -59,6 +59,16 @@ Section C09.
   Theorem C09_span_kept ops s : span (run ops s) = span s /\ kind (run ops s) = kind s.
   Proof. exact (span_kept pycast arrcast infer astype_dt itemseq_exn ops s). Qed.
 
+  (* declaration order: `index` (and `names`) only grow at the end; an accepted add_variable puts the new name last *)
+  Theorem C09_declaration_order_kept ops s :
+    (exists l, index (run ops s) = index s ++ l) /\ (exists l, names (run ops s) = names s ++ l).
+  Proof. exact (declaration_order_kept pycast arrcast infer astype_dt itemseq_exn ops s). Qed.
+
+  Theorem C09_add_variable_appends name value dt s s' u :
+    add_variable pycast arrcast infer astype_dt name value dt s = (s', Ret u) ->
+    index s' = index s ++ [name] /\ names s' = names s ++ (match kind s with CVC => [] | _ => [name] end).
+  Proof. exact (add_variable_appends pycast arrcast infer astype_dt name value dt s s' u). Qed.
+
   (* values = rows-by-periods stack in declaration order, never raises; size = its element count *)
   Theorem C09_values_stack s :
     Inv s ->
@@ -186,6 +196,8 @@ Print Assumptions C09_reachable_inv_every_state.
 Print Assumptions C09_dtype_kept.
 Print Assumptions C09_dtype_as_created.
 Print Assumptions C09_span_kept.
+Print Assumptions C09_declaration_order_kept.
+Print Assumptions C09_add_variable_appends.
 Print Assumptions C09_values_stack.
 Print Assumptions C09_failed_single_assignment_no_change.
 Print Assumptions C09_add_variable_atomic.
